@@ -633,3 +633,706 @@ Section step_credit.
       + intros ?; apply H3; by left.
   Qed.
 End step_credit.
+
+(** * The three inner loops *)
+
+Definition addIns (P : prm) (t : N) (ops : list (N * N)) : prm :=
+  {| pTR := pTR P; pUM := pUM P;
+     pUI := λ o u, pUI P o u ∨ (o ∈ ops ∧ u = t);
+     pDG := λ m o, pDG P m o ∨ (m = t ∧ o ∈ ops);
+     pCG := pCG P; pUC := pUC P |}.
+Definition addOuts (P : prm) (t : N) (l : list N) : prm :=
+  {| pTR := pTR P; pUM := pUM P; pUI := pUI P; pDG := pDG P;
+     pCG := λ o, pCG P o ∨ (o.1 = t ∧ o.2 ∈ l);
+     pUC := λ o, pUC P o ∨ (o.1 = t ∧ o.2 ∈ l) |}.
+Definition addCbOuts (P : prm) (t : N) (l : list N) : prm :=
+  {| pTR := pTR P; pUM := pUM P; pUI := pUI P; pDG := pDG P;
+     pCG := λ o, pCG P o ∨ (o.1 = t ∧ o.2 ∈ l);
+     pUC := pUC P |}.
+
+Lemma rb_pair_cons (Q : Prop) (a t b i : N) l :
+  ((Q ∨ (a, b) = (t, i)) ∨ (a = t ∧ b ∈ l)) ↔ (Q ∨ (a = t ∧ b ∈ i :: l)).
+Proof.
+  rewrite elem_of_cons. split.
+  - intros [[?|[= -> ->]]|[? ?]]; auto.
+  - intros [?|[-> [->|?]]]; auto.
+Qed.
+
+Section folds.
+  Context (U : gmap N tx) (HwfU : wf_universe U = true).
+  Context (F : facts) (Hfw : facts_wf U F) (B : gmap Z blockrec).
+  Context (t : N) (x : tx) (bh : Z) (bhash : N).
+  Context (Hc : f_conf F !! t = Some (bh, bhash)) (Hx : U !! t = Some x).
+
+  Lemma g_fold_in l : ∀ P s mb,
+    InvG U F B P s mb → t ∉ f_unconf F →
+    (∀ j op, (j, op) ∈ l → input_at U t j = Some op) →
+    NoDup (l.*2) → (∀ op, op ∈ l.*2 → ¬ pUI P op t) →
+    InvG U F B (addIns P t (l.*2)) (foldl (rb_step_in t bh bhash) (s, mb) l).1
+                                   (foldl (rb_step_in t bh bhash) (s, mb) l).2.
+  Proof.
+    induction l as [|[j op] l IH]; intros P s mb HI Hnu Hin Hnd Hfresh.
+    - simpl. eapply InvG_equiv; [exact HI|..]; simpl; try done.
+      + intros o u. split; [by left|]. intros [?|[?%elem_of_nil _]]; done.
+      + intros m o _. split; [by left|]. intros [?|[_ ?%elem_of_nil]]; done.
+    - cbn [foldl].
+      change (rb_step_in t bh bhash (s, mb) (j, op))
+        with (rb_debit_part t bh bhash j op (put_unmined_input op t s) mb).
+      rewrite fmap_cons in Hnd, Hfresh. simpl in Hnd, Hfresh.
+      apply NoDup_cons in Hnd as [Hnotin Hnd].
+      assert (H1 : ¬ (unconf_spender U F op t ∨ pUI P op t)).
+      { intros [[? _]|?]; [done|]. eapply Hfresh; [|done]. by left. }
+      pose proof (g_step_put_input U F B P s mb op t HI H1) as H2.
+      pose proof (g_step_debit U HwfU F Hfw B _ _ _ t bh bhash j op H2 Hc
+                    (Hin j op ltac:(by left))) as H3.
+      destruct (rb_debit_part t bh bhash j op (put_unmined_input op t s) mb) as [s' mb'].
+      simpl in H3.
+      eapply InvG_equiv; [apply (IH _ s' mb' H3 Hnu)|..]; simpl; try done.
+      + intros j' op' Hel. apply Hin. by right.
+      + intros op' Hel [?|[-> _]]; [|done]. eapply Hfresh; [|done]. by right.
+      + intros o u. rewrite elem_of_cons.
+        split; [intros [[?|[-> ->]]|[? ->]]; auto|intros [?|[[->|?] ->]]; auto].
+      + intros m o _. rewrite elem_of_cons.
+        split; [intros [[?|[-> ->]]|[-> ?]]; auto|intros [?|[-> [->|?]]]; auto].
+  Qed.
+
+  Lemma g_fold_out l : ∀ P s mb,
+    InvG U F B P s mb → NoDup l → (∀ i, i ∈ l → ¬ pCG P (t, i)) →
+    InvG U F B (addOuts P t l) (foldl (rb_step_out x t bh bhash) (s, mb) l).1
+                               (foldl (rb_step_out x t bh bhash) (s, mb) l).2.
+  Proof.
+    induction l as [|i l IH]; intros P s mb HI Hnd Hfresh.
+    - simpl. eapply InvG_equiv; [exact HI|..]; simpl; try done.
+      + intros o _ _. split; [by left|]. intros [?|[_ ?%elem_of_nil]]; done.
+      + intros o _ _. split; [by left|]. intros [?|[_ ?%elem_of_nil]]; done.
+    - cbn [foldl]. apply NoDup_cons in Hnd as [Hnotin Hnd].
+      assert (Hstep : InvG U F B (addCG (addUC P (t, i)) (t, i))
+                (rb_step_out x t bh bhash (s, mb) i).1 (rb_step_out x t bh bhash (s, mb) i).2).
+      { unfold rb_step_out. destruct (credits s !! (t, bh, bhash, i)) as [cv|] eqn:Hcv.
+        - pose proof (g_step_uc U HwfU F B P s mb t bh bhash i cv HI Hcv) as H1.
+          pose proof (g_step_cg U F B _ _ _ t x bh bhash i H1 Hc Hx) as H2.
+          unfold cred_key_of_unspent. simpl in H2. simpl.
+          destruct (unspent s !! (t, i)) as [[h0 bh0]|]; simpl; exact H2.
+        - simpl. eapply g_step_cg_none; eauto.
+          eapply g_step_uc_none; eauto. apply Hfresh. by left. }
+      destruct (rb_step_out x t bh bhash (s, mb) i) as [s' mb']. simpl in Hstep.
+      eapply InvG_equiv; [apply (IH _ s' mb' Hstep Hnd)|..]; simpl; try done.
+      + intros i' Hel [?|[= ->]]; [|done]. eapply Hfresh; [|done]. by right.
+      + intros [a b] _ _. simpl. apply rb_pair_cons.
+      + intros [a b] _ _. simpl. apply rb_pair_cons.
+  Qed.
+
+  Lemma g_fold_cb l : ∀ P s mb cbc,
+    InvG U F B P s mb →
+    InvG U F B (addCbOuts P t l) (foldl (rb_step_cb x t bh bhash) (s, mb, cbc) l).1.1
+                                 (foldl (rb_step_cb x t bh bhash) (s, mb, cbc) l).1.2 ∧
+    (foldl (rb_step_cb x t bh bhash) (s, mb, cbc) l).2 = cbc ++ map (λ i, (t, i)) l.
+  Proof.
+    induction l as [|i l IH]; intros P s mb cbc HI.
+    - simpl. rewrite app_nil_r. split; [|done].
+      eapply InvG_equiv; [exact HI|..]; simpl; try done.
+      intros o _ _. split; [by left|]. intros [?|[_ ?%elem_of_nil]]; done.
+    - cbn [foldl].
+      assert (Hstep : InvG U F B (addCG P (t, i))
+                (rb_step_cb x t bh bhash (s, mb, cbc) i).1.1 (rb_step_cb x t bh bhash (s, mb, cbc) i).1.2 ∧
+                (rb_step_cb x t bh bhash (s, mb, cbc) i).2 = cbc ++ [(t, i)]).
+      { unfold rb_step_cb. destruct (credits s !! (t, bh, bhash, i)) as [cv|] eqn:Hcv.
+        - pose proof (g_step_cg U F B _ _ _ t x bh bhash i HI Hc Hx) as H2.
+          unfold cred_key_of_unspent.
+          destruct (unspent s !! (t, i)) as [[h0 bh0]|]; simpl; split; try done; exact H2.
+        - simpl. split; [|done]. eapply g_step_cg_none; eauto. }
+      destruct (rb_step_cb x t bh bhash (s, mb, cbc) i) as [[s' mb'] cbc']. simpl in Hstep.
+      destruct Hstep as [Hstep ->].
+      destruct (IH _ s' mb' (cbc ++ [(t, i)]) Hstep) as [IH1 IH2]. split.
+      + eapply InvG_equiv; [exact IH1|..]; simpl; try done.
+        intros [a b] _ _. simpl. apply rb_pair_cons.
+      + rewrite IH2. simpl. by rewrite <- app_assoc.
+  Qed.
+End folds.
+
+(** * The invariant between two transactions of the detaching loop *)
+
+Definition prm_of (U : gmap N tx) (done : gset N) : prm :=
+  {| pTR := λ t, t ∈ done;
+     pUM := λ t, t ∈ done ∧ is_coinbase U t = false;
+     pUI := λ op u, u ∈ done ∧ is_coinbase U u = false ∧ op ∈ tx_ins U u;
+     pDG := λ m op, m ∈ done;
+     pCG := λ op, op.1 ∈ done;
+     pUC := λ op, op.1 ∈ done ∧ is_coinbase U op.1 = false |}.
+
+Definition InvD (U : gmap N tx) (F : facts) (B : gmap Z blockrec) (done : gset N) (s : store) (mb : Z) : Prop :=
+  InvG U F B (prm_of U done) s mb.
+
+(** the outpoints a detached transaction contributes to the coinbase list *)
+Definition cb_outs (U : gmap N tx) (t : N) : list (N * N) :=
+  match U !! t with
+  | Some x => if t_coinbase x then map (λ i, (t, i)) (indices (t_outs x)) else []
+  | None => []
+  end.
+
+Lemma rb_indices_length {A} (l : list A) : length (indices l) = length l.
+Proof. unfold indices. by rewrite map_length, seq_length. Qed.
+
+Section tx_step.
+  Context (U : gmap N tx) (HwfU : wf_universe U = true).
+  Context (F : facts) (Hfw : facts_wf U F) (B : gmap Z blockrec).
+
+  Lemma rollback_tx_InvD done s mb cbc t bh bhash :
+    InvD U F B done s mb → f_conf F !! t = Some (bh, bhash) → t ∉ done →
+    InvD U F B (done ∪ {[t]}) (rollback_tx U bh bhash (s, mb, cbc) t).1.1
+                              (rollback_tx U bh bhash (s, mb, cbc) t).1.2 ∧
+    (rollback_tx U bh bhash (s, mb, cbc) t).2 = cbc ++ cb_outs U t.
+  Proof.
+    intros HI Hc Hnd. unfold InvD in *.
+    destruct (fw_in_universe U F Hfw t) as [x Hx]; [left; rewrite Hc; eauto|].
+    destruct (rb_wf_parts U HwfU _ _ Hx) as (Hid & Hndins & Hpos & Hrange & Hcbins).
+    rewrite rollback_tx_unfold. unfold cb_outs. rewrite Hx.
+    pose proof (g_step_txrec U F B _ _ _ t bh bhash HI Hc) as H1.
+    assert (HinT : ∀ t', t' ∈ done ∪ {[t]} ↔ t' ∈ done ∨ t' = t).
+    { intros t'. rewrite elem_of_union, elem_of_singleton. done. }
+    assert (Hcred_range : ∀ i chg, is_credited U (t, i) chg → i ∈ indices (t_outs x)).
+    { intros i chg Hcr. apply rb_elem_indices. eapply rb_credited_in_range; eauto. }
+    destruct (t_coinbase x) eqn:Hcb.
+    - (* coinbase: the credits disappear *)
+      assert (Hcbt : is_coinbase U t = true) by (unfold is_coinbase; by rewrite Hx).
+      destruct (g_fold_cb U F B t x bh bhash Hc Hx (indices (t_outs x)) _ _ _ cbc H1) as [H2 H3].
+      simpl. split; [|exact H3].
+      eapply InvG_equiv; [exact H2|..]; simpl.
+      + intros t'. by rewrite HinT.
+      + intros t'. rewrite HinT. split; [intros [? ?]; auto|].
+        intros [[?| ->] ?]; [done|congruence].
+      + intros op u. rewrite HinT. split; [intros (? & ? & ?); auto|].
+        intros ([?| ->] & ? & ?); [done|congruence].
+      + intros m op Hin. rewrite HinT. split; [auto|]. intros [?| ->]; [done|].
+        unfold tx_ins in Hin. rewrite Hx, (Hcbins eq_refl) in Hin. by apply elem_of_nil in Hin.
+      + intros [a b] chg Hcr. simpl. rewrite HinT. split.
+        * intros [?|[? _]]; auto.
+        * intros [?| ->]; [by left|]. right. split; [done|]. eauto.
+      + intros [a b] chg Hcr. simpl. rewrite HinT. split; [intros [? ?]; auto|].
+        intros [[?| ->] ?]; [done|congruence].
+    - (* ordinary transaction: moved to the unmined buckets *)
+      assert (Hcbt : is_coinbase U t = false) by (unfold is_coinbase; by rewrite Hx).
+      pose proof (g_step_unmined U F B _ _ _ t H1) as H2.
+      assert (Hsnd : (zip (indices (t_ins x)) (t_ins x)).*2 = t_ins x).
+      { apply snd_zip. by rewrite rb_indices_length. }
+      pose proof (g_fold_in U HwfU F Hfw B t bh bhash Hc (zip (indices (t_ins x)) (t_ins x)) _ _ _ H2) as H3.
+      rewrite Hsnd in H3. simpl.
+      destruct (foldl (rb_step_in t bh bhash) _ (zip (indices (t_ins x)) (t_ins x))) as [s3 mb1].
+      simpl in H3.
+      assert (H3' : InvG U F B (addIns {| pTR := λ x0, (λ x1, x1 ∈ done) x0 ∨ x0 = t;
+                       pUM := λ x0, (λ t0, t0 ∈ done ∧ is_coinbase U t0 = false) x0 ∨ x0 = t;
+                       pUI := pUI (prm_of U done); pDG := pDG (prm_of U done);
+                       pCG := pCG (prm_of U done); pUC := pUC (prm_of U done) |} t (t_ins x)) s3 mb1).
+      { apply H3.
+        - intros Hu. eapply (fw_disjoint U F Hfw t); [rewrite Hc; eauto|done].
+        - intros j op Hel. apply rb_zip_indices_lookup in Hel. unfold input_at, tx_ins. by rewrite Hx.
+        - done.
+        - intros op _ (? & _). done. }
+      clear H3.
+      pose proof (g_fold_out U HwfU F B t x bh bhash Hc Hx (indices (t_outs x)) _ s3 mb1 H3'
+                    (rb_NoDup_indices _)) as H4.
+      destruct (foldl (rb_step_out x t bh bhash) (s3, mb1) (indices (t_outs x))) as [s4 mb2].
+      simpl. rewrite app_nil_r. split; [|done].
+      eapply InvG_equiv; [apply H4|..]; simpl.
+      + intros i _ ?. done.
+      + intros t'. by rewrite HinT.
+      + intros t'. rewrite HinT. split.
+        * intros [[? ?]| ->]; auto.
+        * intros [[?| ->] ?]; auto.
+      + intros op u. rewrite HinT. split.
+        * intros [(? & ? & ?)|[? ->]]; [auto|]. split; [by right|]. split; [done|].
+          unfold tx_ins. by rewrite Hx.
+        * intros ([?| ->] & ? & Hin); [left; auto|]. right. split; [|done].
+          unfold tx_ins in Hin. by rewrite Hx in Hin.
+      + intros m op Hin. rewrite HinT. split.
+        * intros [?|[? _]]; auto.
+        * intros [?| ->]; [by left|]. right. split; [done|].
+          unfold tx_ins in Hin. by rewrite Hx in Hin.
+      + intros [a b] chg Hcr. simpl. rewrite HinT. split.
+        * intros [?|[? _]]; auto.
+        * intros [?| ->]; [by left|]. right. split; [done|]. eauto.
+      + intros [a b] chg Hcr. simpl. rewrite HinT. split.
+        * intros [[? ?]|[-> _]]; auto.
+        * intros [[?| ->] ?]; [left; auto|]. right. split; [done|]. eauto.
+  Qed.
+End tx_step.
+
+(** * [rollback] with its local functions named *)
+
+Definition rb_step_block (U : gmap N tx) (acc : store * Z * list (N * N)) (h : Z) : store * Z * list (N * N) :=
+  match blocks acc.1.1 !! h with
+  | None => acc
+  | Some br => foldl (rollback_tx U h (b_hash br)) acc (b_txs br)
+  end.
+
+Definition rb_remove_spenders (U : gmap N tx) (fuel : nat) (acc : option store) (sps : list N) : option store :=
+  foldl (fun (acc : option store) sp =>
+           match acc with
+           | None => None
+           | Some s'' =>
+             match unmined s'' !! sp with
+             | None => Some s''
+             | Some _ => remove_conflict U fuel sp s''
+             end
+           end) acc sps.
+
+Definition rb_phaseD (U : gmap N tx) (fuel : nat) (s2 : store) (cbc : list (N * N)) : option store :=
+  foldl (fun (acc : option store) op =>
+           match acc with
+           | None => None
+           | Some s' => rb_remove_spenders U fuel (Some s') (default [] (unmined_inputs s' !! op))
+           end) (Some s2) cbc.
+
+Definition rb_del_blocks (s1 : store) (hs : list Z) : store :=
+  foldl (fun s' h => set_blocks (delete h) s') s1 hs.
+
+Lemma rollback_unfold U fuel height s :
+  rollback U fuel height s =
+  let hs := heights_from s height in
+  let '(s1, mb, cbc) := foldl (rb_step_block U) (s, bal s, []) hs in
+  match rb_phaseD U fuel (rb_del_blocks s1 hs) cbc with
+  | None => None
+  | Some s4 => Some (set_bal (fun _ => mb) s4)
+  end.
+Proof. reflexivity. Qed.
+
+Lemma heights_from_spec s height x :
+  x ∈ heights_from s height ↔ height <= x ∧ is_Some (blocks s !! x).
+Proof.
+  unfold heights_from. rewrite elem_of_reverse, merge_sort_Permutation, elem_of_list_filter.
+  rewrite elem_of_list_fmap. split.
+  - intros [Hle ([k v] & -> & Hel)]. apply elem_of_map_to_list in Hel. simpl. eauto.
+  - intros [Hle [v Hv]]. split; [done|]. exists (x, v). split; [done|]. by apply elem_of_map_to_list.
+Qed.
+
+Lemma heights_from_NoDup s height : NoDup (heights_from s height).
+Proof.
+  unfold heights_from. rewrite reverse_Permutation, merge_sort_Permutation.
+  apply NoDup_filter, NoDup_fst_map_to_list.
+Qed.
+
+(** * The loops over a block and over the blocks *)
+
+Section loops.
+  Context (U : gmap N tx) (HwfU : wf_universe U = true).
+  Context (F : facts) (s0 : store) (HInv0 : Inv U s0 F).
+  Let B := blocks s0.
+  Let Hfw : facts_wf U F := inv_wf U s0 F HInv0.
+
+  Lemma rollback_block hh bhash txs : ∀ done s mb cbc,
+    InvD U F B done s mb → NoDup txs →
+    (∀ t, t ∈ txs → f_conf F !! t = Some (hh, bhash) ∧ t ∉ done) →
+    InvD U F B (done ∪ list_to_set txs) (foldl (rollback_tx U hh bhash) (s, mb, cbc) txs).1.1
+                                        (foldl (rollback_tx U hh bhash) (s, mb, cbc) txs).1.2 ∧
+    (foldl (rollback_tx U hh bhash) (s, mb, cbc) txs).2 = cbc ++ mjoin (cb_outs U <$> txs).
+  Proof.
+    induction txs as [|t txs IH]; intros done s mb cbc HI Hnd Htxs.
+    - simpl. rewrite app_nil_r. split; [|done].
+      replace (done ∪ ∅) with done by set_solver. done.
+    - cbn [foldl]. apply NoDup_cons in Hnd as [Hnotin Hnd].
+      destruct (Htxs t ltac:(by left)) as [Hc Hnd_t].
+      destruct (rollback_tx_InvD U HwfU F Hfw B done s mb cbc t hh bhash HI Hc Hnd_t) as [H1 H2].
+      destruct (rollback_tx U hh bhash (s, mb, cbc) t) as [[s' mb'] cbc']. simpl in H1, H2. subst cbc'.
+      destruct (IH (done ∪ {[t]}) s' mb' (cbc ++ cb_outs U t) H1 Hnd) as [H3 H4].
+      + intros t' Hel. destruct (Htxs t' ltac:(by right)) as [? ?]. split; [done|].
+        intros [?|?%elem_of_singleton]%elem_of_union; [done|]. congruence.
+      + split.
+        * replace (done ∪ list_to_set (t :: txs)) with (done ∪ {[t]} ∪ list_to_set txs) by set_solver.
+          done.
+        * rewrite H4.
+          change (mjoin (cb_outs U <$> t :: txs)) with (cb_outs U t ++ mjoin (cb_outs U <$> txs)).
+          by rewrite <- app_assoc.
+  Qed.
+
+  Definition loop_inv (acc : store * Z * list (N * N)) (visited : list Z) : Prop :=
+    ∃ done : gset N,
+      InvD U F B done acc.1.1 acc.1.2 ∧
+      (∀ t, t ∈ done ↔ ∃ h bh, f_conf F !! t = Some (h, bh) ∧ h ∈ visited) ∧
+      (∀ op, op ∈ acc.2 ↔ ∃ t, t ∈ done ∧ op ∈ cb_outs U t).
+
+  Lemma rollback_blocks hs : ∀ acc visited,
+    loop_inv acc visited → NoDup hs → (∀ h, h ∈ hs → h ∉ visited) →
+    loop_inv (foldl (rb_step_block U) acc hs) (visited ++ hs).
+  Proof.
+    induction hs as [|hh hs IH]; intros acc visited HL Hnd Hfresh.
+    - simpl. by rewrite app_nil_r.
+    - cbn [foldl]. apply NoDup_cons in Hnd as [Hnotin Hnd].
+      replace (visited ++ hh :: hs) with ((visited ++ [hh]) ++ hs) by (by rewrite <- app_assoc).
+      apply IH; [|done|].
+      2:{ intros h Hel [?|?%elem_of_list_singleton]%elem_of_app.
+          - eapply Hfresh; [by right|done].
+          - subst. done. }
+      destruct HL as (done & HI & Hdone & Hcbc).
+      destruct acc as [[s mb] cbc]. simpl in HI, Hcbc.
+      pose proof (g_blocks _ _ _ _ _ _ HI) as HB.
+      unfold rb_step_block. simpl. rewrite HB.
+      destruct (B !! hh) as [br|] eqn:Hbr.
+      + destruct (inv_blocks_sound U s0 F HInv0 hh br Hbr) as (_ & Hndtx & Hconf).
+        destruct (rollback_block hh (b_hash br) (b_txs br) done s mb cbc HI Hndtx) as [H1 H2].
+        { intros t Hel. split; [by apply Hconf|].
+          intros (h' & bh' & Hc' & Hv)%Hdone. rewrite (Hconf t Hel) in Hc'. injection Hc' as <- <-.
+          eapply Hfresh; [by left|done]. }
+        exists (done ∪ list_to_set (b_txs br)). split; [done|]. split.
+        * intros t. rewrite elem_of_union, elem_of_list_to_set, Hdone. split.
+          -- intros [(h' & bh' & Hc' & Hv)|Hel].
+             ++ exists h', bh'. split; [done|]. apply elem_of_app. by left.
+             ++ exists hh, (b_hash br). split; [by apply Hconf|]. apply elem_of_app. right. by left.
+          -- intros (h' & bh' & Hc' & [Hv|Hv%elem_of_list_singleton]%elem_of_app).
+             ++ left. eauto.
+             ++ subst h'. right. destruct (inv_blocks_complete U s0 F HInv0 _ _ _ Hc') as (br' & Hbr' & _ & Hel).
+                fold B in Hbr'. rewrite Hbr in Hbr'. by injection Hbr' as <-.
+        * intros op. rewrite H2, elem_of_app, Hcbc. split.
+          -- intros [(t & Ht & Hop)|Hop].
+             ++ exists t. split; [|done]. apply elem_of_union. by left.
+             ++ apply elem_of_list_join in Hop as (l & Hop & Hl).
+                apply elem_of_list_fmap in Hl as (t & -> & Hel).
+                exists t. split; [|done]. apply elem_of_union. right. by apply elem_of_list_to_set.
+          -- intros (t & [Ht|Ht%elem_of_list_to_set]%elem_of_union & Hop).
+             ++ left. eauto.
+             ++ right. apply elem_of_list_join. exists (cb_outs U t). split; [done|].
+                apply elem_of_list_fmap. eauto.
+      + exists done. split; [done|]. split; [|done].
+        intros t. rewrite Hdone. split.
+        * intros (h' & bh' & Hc' & Hv). exists h', bh'. split; [done|]. apply elem_of_app. by left.
+        * intros (h' & bh' & Hc' & [Hv|Hv%elem_of_list_singleton]%elem_of_app); [eauto|].
+          subst h'. destruct (inv_blocks_complete U s0 F HInv0 _ _ _ Hc') as (br' & Hbr' & _).
+          fold B in Hbr'. congruence.
+  Qed.
+End loops.
+
+(** * The facts after detaching, before the coinbase descendants are removed *)
+
+Definition disc_gone (F : facts) (h : Z) : list N :=
+  map fst (filter (fun kv : N * (Z * N) => h <= kv.2.1) (map_to_list (f_conf F))).
+Definition disc_cb (U : gmap N tx) (F : facts) (h : Z) : list N :=
+  filter (fun t => is_coinbase U t) (disc_gone F h).
+Definition disc_F1 (U : gmap N tx) (F : facts) (h : Z) : facts :=
+  {| f_conf := filter (fun kv : N * (Z * N) => ¬ (h <= kv.2.1)) (f_conf F);
+     f_unconf := f_unconf F ∪ list_to_set (filter (fun t => negb (is_coinbase U t)) (disc_gone F h));
+     f_leases := f_leases F |}.
+
+Lemma spec_disconnect_unfold U F h :
+  spec_disconnect U F h =
+  let F1 := disc_F1 U F h in
+  let uc := elements (f_unconf F1) in
+  {| f_conf := f_conf F1;
+     f_unconf := filter (fun t => t ∉ descendants U (S (length uc)) uc (disc_cb U F h)) (f_unconf F1);
+     f_leases := f_leases F1 |}.
+Proof. reflexivity. Qed.
+
+Lemma disc_conf_lookup U F h t hh bh :
+  f_conf (disc_F1 U F h) !! t = Some (hh, bh) ↔ f_conf F !! t = Some (hh, bh) ∧ ¬ (h <= hh).
+Proof. simpl. rewrite map_filter_lookup_Some. simpl. done. Qed.
+
+Lemma disc_gone_elem F h t :
+  t ∈ disc_gone F h ↔ ∃ hh bh, f_conf F !! t = Some (hh, bh) ∧ h <= hh.
+Proof.
+  unfold disc_gone. rewrite elem_of_list_fmap. split.
+  - intros ([k [hh bh]] & -> & Hel). apply elem_of_list_filter in Hel as [Hle Hel].
+    apply elem_of_map_to_list in Hel. simpl in *. eauto.
+  - intros (hh & bh & Hc & Hle). exists (t, (hh, bh)). split; [done|].
+    apply elem_of_list_filter. split; [done|]. by apply elem_of_map_to_list.
+Qed.
+
+Lemma disc_unconf_elem U F h t :
+  t ∈ f_unconf (disc_F1 U F h) ↔
+  t ∈ f_unconf F ∨ ((∃ hh bh, f_conf F !! t = Some (hh, bh) ∧ h <= hh) ∧ is_coinbase U t = false).
+Proof.
+  simpl. rewrite elem_of_union, elem_of_list_to_set, elem_of_list_filter, disc_gone_elem.
+  destruct (is_coinbase U t); simpl; split; intros [?|[? ?]]; auto; try done.
+Qed.
+
+Lemma disc_cb_elem U F h t :
+  t ∈ disc_cb U F h ↔ (∃ hh bh, f_conf F !! t = Some (hh, bh) ∧ h <= hh) ∧ is_coinbase U t = true.
+Proof.
+  unfold disc_cb. rewrite elem_of_list_filter, disc_gone_elem.
+  destruct (is_coinbase U t); simpl; split; intros [? ?]; auto; try done.
+Qed.
+
+Lemma disc_facts_wf U F h : facts_wf U F → facts_wf U (disc_F1 U F h).
+Proof.
+  intros Hfw. constructor.
+  - intros t [[[hh bh] Hc]|Hu].
+    + apply disc_conf_lookup in Hc as [Hc _]. apply (fw_in_universe U F Hfw). left. rewrite Hc. eauto.
+    + apply disc_unconf_elem in Hu as [Hu|[(hh & bh & Hc & _) _]]; apply (fw_in_universe U F Hfw).
+      * by right.
+      * left. rewrite Hc. eauto.
+  - intros t [[hh bh] Hc] Hu. apply disc_conf_lookup in Hc as [Hc Hlt].
+    apply disc_unconf_elem in Hu as [Hu|[(hh' & bh' & Hc' & Hle) _]].
+    + eapply (fw_disjoint U F Hfw t); [rewrite Hc; eauto|done].
+    + rewrite Hc in Hc'. injection Hc' as <- <-. lia.
+  - intros op m1 m2 [[[h1 b1] H1] Hi1] [[[h2 b2] H2] Hi2].
+    apply disc_conf_lookup in H1 as [H1 _]. apply disc_conf_lookup in H2 as [H2 _].
+    eapply (fw_one_conf_spender U F Hfw op); (split; [|done]); [rewrite H1|rewrite H2]; eauto.
+  - intros op m u [[[h1 b1] H1] Hi1] [Hu Hi2]. apply disc_conf_lookup in H1 as [H1 Hlt].
+    apply disc_unconf_elem in Hu as [Hu|[(hh' & bh' & Hc' & Hle) _]].
+    + eapply (fw_no_unconf_conflict U F Hfw op m u); [|split; done]. split; [rewrite H1; eauto|done].
+    + assert (m = u) as ->.
+      { eapply (fw_one_conf_spender U F Hfw op); (split; [|done]); [rewrite H1|rewrite Hc']; eauto. }
+      rewrite H1 in Hc'. injection Hc' as <- <-. lia.
+  - intros m hm bh op Hc Hin Hk. apply disc_conf_lookup in Hc as [Hc Hlt].
+    destruct (fw_parents_confirmed U F Hfw m hm bh op Hc Hin) as (ph & pbh & Hp & Hle).
+    + destruct Hk as [[[h1 b1] H1]|Hu].
+      * apply disc_conf_lookup in H1 as [H1 _]. left. rewrite H1. eauto.
+      * apply disc_unconf_elem in Hu as [Hu|[(hh' & bh' & Hc' & _) _]]; [by right|].
+        left. rewrite Hc'. eauto.
+    + exists ph, pbh. split; [|done]. apply disc_conf_lookup. split; [done|lia].
+  - intros t Hu. apply disc_unconf_elem in Hu as [Hu|[_ ?]]; [|done].
+    by apply (fw_coinbase_confirmed U F Hfw).
+  - intros t1 t2 hh b1 b2 H1 H2. apply disc_conf_lookup in H1 as [H1 _]. apply disc_conf_lookup in H2 as [H2 _].
+    eapply (fw_one_hash_per_height U F Hfw); eauto.
+  - intros t hh b H1. apply disc_conf_lookup in H1 as [H1 _]. eapply (fw_heights_nonneg U F Hfw); eauto.
+Qed.
+
+(** * From the loop invariant to [Inv] for [disc_F1] *)
+
+Lemma rb_del_blocks_spec hs : ∀ s1,
+  txrecs (rb_del_blocks s1 hs) = txrecs s1 ∧ credits (rb_del_blocks s1 hs) = credits s1 ∧
+  unspent (rb_del_blocks s1 hs) = unspent s1 ∧ debits (rb_del_blocks s1 hs) = debits s1 ∧
+  unmined (rb_del_blocks s1 hs) = unmined s1 ∧ unmined_credits (rb_del_blocks s1 hs) = unmined_credits s1 ∧
+  unmined_inputs (rb_del_blocks s1 hs) = unmined_inputs s1 ∧ locked (rb_del_blocks s1 hs) = locked s1 ∧
+  bal (rb_del_blocks s1 hs) = bal s1 ∧
+  (∀ x, x ∈ hs → blocks (rb_del_blocks s1 hs) !! x = None) ∧
+  (∀ x, x ∉ hs → blocks (rb_del_blocks s1 hs) !! x = blocks s1 !! x).
+Proof.
+  unfold rb_del_blocks. induction hs as [|h hs IH]; intros s1.
+  - simpl. repeat split; try done. intros x ?%elem_of_nil. done.
+  - cbn [foldl]. destruct (IH (set_blocks (delete h) s1)) as (H1 & H2 & H3 & H4 & H5 & H6 & H7 & H8 & H9 & H10 & H11).
+    repeat split; try done.
+    + intros x Hx. destruct (decide (x ∈ hs)) as [Hin|Hnin]; [by apply H10|].
+      rewrite H11 by done. simpl. apply elem_of_cons in Hx as [->|?]; [|done]. apply lookup_delete.
+    + intros x Hx. apply not_elem_of_cons in Hx as [Hne Hx]. rewrite H11 by done. simpl.
+      by rewrite lookup_delete_ne.
+Qed.
+
+Section finish.
+  Context (U : gmap N tx) (HwfU : wf_universe U = true).
+  Context (F : facts) (s0 : store) (HInv0 : Inv U s0 F) (h : Z).
+  Let B := blocks s0.
+  Let Hfw : facts_wf U F := inv_wf U s0 F HInv0.
+  Let hs := heights_from s0 h.
+  Let F1 := disc_F1 U F h.
+
+  Lemma InvD_finish done s1 mb :
+    InvD U F B done s1 mb →
+    (∀ t, t ∈ done ↔ ∃ hh bh, f_conf F !! t = Some (hh, bh) ∧ hh ∈ hs) →
+    Inv U (set_bal (fun _ => mb) (rb_del_blocks s1 hs)) F1.
+  Proof.
+    intros [Hb Htr Hum Hcs Hcc Hus Hds Hdc Huc Huis Huic Hmb Hlo] Hdone0. simpl in *.
+    assert (Hdone : ∀ t, t ∈ done ↔ ∃ hh bh, f_conf F !! t = Some (hh, bh) ∧ h <= hh).
+    { intros t. rewrite Hdone0. split.
+      - intros (hh & bh & Hc & Hin). apply heights_from_spec in Hin as [? _]. eauto.
+      - intros (hh & bh & Hc & Hle). exists hh, bh. split; [done|]. apply heights_from_spec. split; [done|].
+        destruct (inv_blocks_complete U s0 F HInv0 _ _ _ Hc) as (br & Hbr & _). rewrite Hbr. eauto. }
+    assert (HF1conf : ∀ t hh bh, f_conf F1 !! t = Some (hh, bh) ↔ f_conf F !! t = Some (hh, bh) ∧ t ∉ done).
+    { intros t hh bh. unfold F1. rewrite disc_conf_lookup. split; intros [Hc Hn]; (split; [done|]).
+      - intros (hh' & bh' & Hc' & Hle)%Hdone. rewrite Hc in Hc'. injection Hc' as <- <-. done.
+      - intros Hle. apply Hn, Hdone. eauto. }
+    assert (HF1unc : ∀ t, t ∈ f_unconf F1 ↔ t ∈ f_unconf F ∨ (t ∈ done ∧ is_coinbase U t = false)).
+    { intros t. unfold F1. rewrite disc_unconf_elem, Hdone. done. }
+    assert (HF1sp : ∀ op m, conf_spender U F1 op m ↔ conf_spender U F op m ∧ m ∉ done).
+    { intros op m. unfold conf_spender. split.
+      - intros [[[hh bh] Hc] Hin]. apply HF1conf in Hc as [Hc Hn]. split; [|done]. split; [|done]. rewrite Hc. eauto.
+      - intros [[[[hh bh] Hc] Hin] Hn]. split; [|done]. exists (hh, bh). apply HF1conf. done. }
+    assert (HF1usp : ∀ op u, unconf_spender U F1 op u ↔
+              unconf_spender U F op u ∨ (u ∈ done ∧ is_coinbase U u = false ∧ op ∈ tx_ins U u)).
+    { intros op u. unfold unconf_spender. rewrite HF1unc. split.
+      - intros [[?|[? ?]] ?]; [left|right]; done.
+      - intros [[? ?]|(? & ? & ?)]; (split; [|done]); [by left|by right]. }
+    assert (Hrem : ∀ op, (∃ m, conf_spender U F1 op m) ↔ (∃ m, conf_spender U F op m ∧ m ∉ done)).
+    { intros op. split; intros [m Hm]; exists m; by apply HF1sp. }
+    destruct (rb_del_blocks_spec hs s1) as (E1 & E2 & E3 & E4 & E5 & E6 & E7 & E8 & E9 & E10 & E11).
+    constructor;
+      cbn [set_bal blocks txrecs credits unspent debits unmined unmined_credits unmined_inputs locked bal];
+      rewrite ?E1, ?E2, ?E3, ?E4, ?E5, ?E6, ?E7, ?E8.
+    - apply disc_facts_wf, Hfw.
+    - intros x br Hx.
+      assert (Hxn : x ∉ hs). { intros Hin. rewrite (E10 x Hin) in Hx. done. }
+      rewrite (E11 x Hxn), Hb in Hx.
+      destruct (inv_blocks_sound U s0 F HInv0 x br Hx) as (H1 & H2 & H3).
+      split; [done|]. split; [done|]. intros t Ht. apply disc_conf_lookup. split; [by apply H3|].
+      intros Hle. apply Hxn. apply heights_from_spec. split; [done|]. fold B. rewrite Hx. eauto.
+    - intros t hh bh Hc. apply disc_conf_lookup in Hc as [Hc Hlt].
+      destruct (inv_blocks_complete U s0 F HInv0 _ _ _ Hc) as (br & Hbr & Hh & Hel).
+      exists br. split; [|done]. rewrite E11, Hb; [done|].
+      intros [? _]%heights_from_spec. done.
+    - intros t hh bh. rewrite Htr, HF1conf. done.
+    - intros t. rewrite Hum, HF1unc. done.
+    - intros t hh bh i cv Hl. destruct (Hcs _ _ _ _ _ Hl) as (H1 & H2 & H3 & H4 & H5).
+      split; [by apply HF1conf|]. split; [done|]. split; [done|]. rewrite H5. symmetry. apply Hrem.
+    - intros t hh bh i chg Hc Hcr. apply HF1conf in Hc as [Hc Hn]. eapply Hcc; eauto.
+    - intros op hh bh. rewrite Hus, HF1conf, Hrem. split.
+      + intros (? & ? & ? & ?). done.
+      + intros ([? ?] & ? & ?). done.
+    - intros m hm bh j a ck Hl. destruct (Hds _ _ _ _ _ _ Hl) as (H1 & op & ph & pbh & H2 & H3 & H4 & H5 & H6 & H7).
+      split; [by apply HF1conf|]. exists op, ph, pbh. repeat split; try done.
+      apply disc_conf_lookup. split; [done|].
+      destruct (fw_parents_confirmed U F Hfw m hm bh op H1) as (ph' & pbh' & Hp & Hle).
+      { apply rb_input_at_elem. eauto. }
+      { left. rewrite H5. eauto. }
+      rewrite H5 in Hp. injection Hp as <- <-.
+      intros Hge. apply H3, Hdone. exists hm, bh. split; [done|lia].
+    - intros m hm bh j op ph pbh chg Hc Hin Hcr Hp.
+      apply HF1conf in Hc as [Hc Hn]. apply disc_conf_lookup in Hp as [Hp _]. eapply Hdc; eauto.
+    - intros op a chg. rewrite Huc, HF1unc. done.
+    - intros op l Hl. destruct (Huis _ _ Hl) as (H1 & H2 & H3). split; [done|]. split; [done|].
+      intros u. rewrite H3, HF1usp. done.
+    - intros op u Hu. apply (Huic op u). by apply HF1usp.
+    - rewrite Hmb. reflexivity.
+    - done.
+  Qed.
+End finish.
+
+(** * The coinbase-descendant phase *)
+
+Lemma rb_dep_in U F roots t : depends_on U F roots t → t ∈ roots ∨ t ∈ f_unconf F.
+Proof. induction 1; auto. Qed.
+
+Lemma rb_dep_mono U F F1 sp roots t :
+  depends_on U F [sp] t → f_unconf F ⊆ f_unconf F1 → depends_on U F1 roots sp →
+  depends_on U F1 roots t.
+Proof.
+  intros Hd Hsub Hsp. induction Hd as [r Hr|p c Hp IH Hc Hs].
+  - apply elem_of_list_singleton in Hr. by subst.
+  - eapply dep_step; eauto.
+Qed.
+
+Lemma rb_spends_output_of_iff U c p :
+  spends_output_of U c p = true ↔ ∃ op, op ∈ tx_ins U c ∧ op.1 = p.
+Proof.
+  unfold spends_output_of. rewrite existsb_exists. split.
+  - intros (op & Hin & Hb). exists op. split; [by apply elem_of_list_In|]. by apply bool_decide_eq_true in Hb.
+  - intros (op & Hin & Hb). exists op. split; [by apply elem_of_list_In|]. by apply bool_decide_eq_true.
+Qed.
+
+Section phaseD.
+  Context (U : gmap N tx) (HwfU : wf_universe U = true).
+  Hypothesis Hdesc : descendants_correct U.
+  Hypothesis Hrc : remove_conflict_correct U.
+  Context (F1 : facts) (cb : list N).
+
+  Lemma rb_rm_elem F roots t :
+    t ∈ f_unconf (remove_unconf_with_descendants U F roots) ↔ t ∈ f_unconf F ∧ ¬ depends_on U F roots t.
+  Proof.
+    unfold remove_unconf_with_descendants. simpl. rewrite elem_of_filter.
+    rewrite (Hdesc F roots t). tauto.
+  Qed.
+
+  Definition PD (s : store) (Fk : facts) : Prop :=
+    Inv U s Fk ∧ f_conf Fk = f_conf F1 ∧ f_leases Fk = f_leases F1 ∧
+    f_unconf Fk ⊆ f_unconf F1 ∧
+    (∀ t, t ∈ f_unconf F1 → t ∉ f_unconf Fk → depends_on U F1 cb t) ∧
+    (∀ c p, c ∈ f_unconf Fk → p ∈ f_unconf F1 → p ∉ f_unconf Fk → spends_output_of U c p = true → False).
+
+  Lemma PD_remove s Fk sp :
+    PD s Fk → sp ∈ f_unconf Fk → depends_on U F1 cb sp →
+    ∃ s', remove_conflict U (fuel_of U) sp s = Some s' ∧
+          PD s' (remove_unconf_with_descendants U Fk [sp]) ∧
+          sp ∉ f_unconf (remove_unconf_with_descendants U Fk [sp]).
+  Proof.
+    intros (HI & Hcf & Hle & Hsub & Hrem & Hclo) Hsp Hdsp.
+    destruct (Hrc s Fk sp HwfU HI Hsp) as (s' & Hs' & HI').
+    exists s'. split; [done|]. split.
+    - split; [done|]. split; [done|]. split; [done|]. split; [|split].
+      + intros t Ht. apply rb_rm_elem in Ht as [Ht _]. by apply Hsub.
+      + intros t Ht1 Htn. destruct (decide (t ∈ f_unconf Fk)) as [Htk|Htk]; [|by apply Hrem].
+        destruct (decide (t ∈ descendants U (S (length (elements (f_unconf Fk)))) (elements (f_unconf Fk)) [sp]))
+          as [Hd|Hd].
+        * apply (Hdesc Fk [sp] t) in Hd. eapply rb_dep_mono; eauto.
+        * exfalso. apply Htn. unfold remove_unconf_with_descendants. simpl. apply elem_of_filter. done.
+      + intros c p Hc Hp1 Hpn Hs. apply rb_rm_elem in Hc as [Hc Hcn].
+        destruct (decide (p ∈ f_unconf Fk)) as [Hpk|Hpk]; [|by eapply Hclo].
+        apply Hcn. eapply dep_step; [|done|done].
+        destruct (decide (p ∈ descendants U (S (length (elements (f_unconf Fk)))) (elements (f_unconf Fk)) [sp]))
+          as [Hd|Hd].
+        * by apply (Hdesc Fk [sp] p) in Hd.
+        * exfalso. apply Hpn. unfold remove_unconf_with_descendants. simpl. apply elem_of_filter. done.
+    - intros Hin. apply rb_rm_elem in Hin as [_ Hn]. apply Hn. apply dep_root. by left.
+  Qed.
+
+  Lemma PD_spenders sps : ∀ s Fk,
+    PD s Fk → (∀ sp, sp ∈ sps → sp ∈ f_unconf Fk → depends_on U F1 cb sp) →
+    ∃ s' Fk', rb_remove_spenders U (fuel_of U) (Some s) sps = Some s' ∧ PD s' Fk' ∧
+              f_unconf Fk' ⊆ f_unconf Fk ∧ ∀ sp, sp ∈ sps → sp ∉ f_unconf Fk'.
+  Proof.
+    induction sps as [|sp sps IH]; intros s Fk HPD Hdir.
+    - exists s, Fk. split; [done|]. split; [done|]. split; [done|]. intros sp ?%elem_of_nil. done.
+    - unfold rb_remove_spenders. cbn [foldl]. fold (rb_remove_spenders U (fuel_of U)).
+      destruct (unmined s !! sp) as [[]|] eqn:Hm.
+      + assert (Hsp : sp ∈ f_unconf Fk).
+        { destruct HPD as (HI & _). apply (inv_unmined U s Fk HI). rewrite Hm. eauto. }
+        destruct (PD_remove s Fk sp HPD Hsp (Hdir sp ltac:(by left) Hsp)) as (s1 & Hs1 & HPD1 & Hgone).
+        rewrite Hs1.
+        destruct (IH s1 _ HPD1) as (s' & Fk' & Hs' & HPD' & Hsub' & Hgone').
+        { intros sp' Hel Hin. apply Hdir; [by right|]. apply rb_rm_elem in Hin as [? _]. done. }
+        exists s', Fk'. split; [done|]. split; [done|]. split.
+        * intros t Ht. apply Hsub' in Ht. apply rb_rm_elem in Ht as [? _]. done.
+        * intros sp' [->|Hel]%elem_of_cons; [|by apply Hgone'].
+          intros Hin. apply Hgone. by apply Hsub'.
+      + assert (Hsp : sp ∉ f_unconf Fk).
+        { destruct HPD as (HI & _). intros Hin. apply (inv_unmined U s Fk HI) in Hin. rewrite Hm in Hin.
+          by destruct Hin. }
+        destruct (IH s Fk HPD) as (s' & Fk' & Hs' & HPD' & Hsub' & Hgone').
+        { intros sp' Hel Hin. apply Hdir; [by right|done]. }
+        exists s', Fk'. split; [done|]. split; [done|]. split; [done|].
+        intros sp' [->|Hel]%elem_of_cons; [|by apply Hgone'].
+        intros Hin. apply Hsp. by apply Hsub'.
+  Qed.
+
+  Lemma PD_outpoints cbc : ∀ s Fk,
+    PD s Fk → (∀ op, op ∈ cbc → op.1 ∈ cb) →
+    ∃ s' Fk', rb_phaseD U (fuel_of U) s cbc = Some s' ∧ PD s' Fk' ∧
+              f_unconf Fk' ⊆ f_unconf Fk ∧
+              ∀ op u, op ∈ cbc → u ∈ f_unconf Fk' → op ∉ tx_ins U u.
+  Proof.
+    unfold rb_phaseD. induction cbc as [|op cbc IH]; intros s Fk HPD Hcb.
+    - exists s, Fk. split; [done|]. split; [done|]. split; [done|]. intros op u ?%elem_of_nil. done.
+    - cbn [foldl].
+      destruct (PD_spenders (default [] (unmined_inputs s !! op)) s Fk HPD) as (s1 & Fk1 & Hs1 & HPD1 & Hsub1 & Hgone1).
+      { intros sp Hel Hin. destruct HPD as (HI & _ & _ & Hsub & _).
+        destruct (unmined_inputs s !! op) as [l|] eqn:Hl; [|by apply elem_of_nil in Hel]. simpl in Hel.
+        destruct (inv_unmined_inputs_sound U s Fk HI op l Hl) as (_ & _ & Hl3).
+        apply Hl3 in Hel as [_ Hop].
+        eapply dep_step; [apply dep_root, (Hcb op); by left|by apply Hsub|].
+        apply rb_spends_output_of_iff. eauto. }
+      rewrite Hs1.
+      destruct (IH s1 Fk1 HPD1) as (s' & Fk' & Hs' & HPD' & Hsub' & Hgone').
+      { intros op' Hel. apply Hcb. by right. }
+      exists s', Fk'. split; [done|]. split; [done|]. split; [set_solver|].
+      intros op' u [->|Hel]%elem_of_cons Hu; [|by eapply Hgone'].
+      intros Hin. apply Hsub' in Hu. pose proof (Hsub1 _ Hu) as Huk.
+      destruct HPD as (HI & _).
+      destruct (inv_unmined_inputs_complete U s Fk HI op u (conj Huk Hin)) as [l Hl].
+      destruct (inv_unmined_inputs_sound U s Fk HI op l Hl) as (_ & _ & Hl3).
+      apply (Hgone1 u); [|done]. rewrite Hl. simpl. apply Hl3. split; done.
+  Qed.
+
+  (** the set of survivors is exactly the spec's *)
+  Lemma PD_final s Fk (cbc : list (N * N)) :
+    PD s Fk → (∀ r, r ∈ cb → r ∉ f_unconf F1) →
+    (∀ r x i, r ∈ cb → U !! r = Some x → (N.to_nat i < length (t_outs x))%nat → (r, i) ∈ cbc) →
+    (∀ t, t ∈ f_unconf F1 → is_Some (U !! t)) → (∀ r, r ∈ cb → is_Some (U !! r)) →
+    (∀ op u, op ∈ cbc → u ∈ f_unconf Fk → op ∉ tx_ins U u) →
+    Fk = remove_unconf_with_descendants U F1 cb.
+  Proof.
+    intros (HI & Hcf & Hle & Hsub & Hrem & Hclo) Hcbu Hcbc HinU HcbU Hnosp.
+    assert (Hcomplete : ∀ t, depends_on U F1 cb t → t ∈ f_unconf Fk → False).
+    { intros t Hd. induction Hd as [r Hr|p c Hp IH Hc Hs]; intros Hin.
+      - eapply Hcbu; [done|]. by apply Hsub.
+      - destruct (decide (p ∈ cb)) as [Hpcb|Hpcb].
+        + apply rb_spends_output_of_iff in Hs as ([a i] & Hop & Hp1). simpl in Hp1. subst a.
+          destruct (HcbU p Hpcb) as [xp Hxp]. destruct (HinU c Hc) as [xc Hxc].
+          eapply (Hnosp (p, i) c); [|done|done].
+          eapply Hcbc; [done|done|].
+          eapply (rb_ins_in_range U HwfU c xc (p, i) xp); [done| |done].
+          unfold tx_ins in Hop. by rewrite Hxc in Hop.
+        + destruct (rb_dep_in _ _ _ _ Hp) as [?|Hp1]; [done|].
+          destruct (decide (p ∈ f_unconf Fk)) as [Hpk|Hpk]; [by apply IH|].
+          eapply Hclo; eauto. }
+    destruct Fk as [cf uc le]. simpl in *. subst cf le.
+    unfold remove_unconf_with_descendants. f_equal.
+    apply set_eq. intros t. rewrite elem_of_filter, (Hdesc F1 cb t). split.
+    - intros Ht. split; [|by apply Hsub]. intros Hd. by eapply Hcomplete.
+    - intros [Hn Ht]. destruct (decide (t ∈ uc)) as [|Hnt]; [done|]. destruct Hn. by apply Hrem.
+  Qed.
+End phaseD.
